@@ -22,6 +22,8 @@ import warnings
 
 ID = "C15"
 LEVEL = "exploration"
+SUITE_UNDER_MONITORS = True  # thorough tier: the unedited repository tests run with this property's contracts loaded
+SUITE_CONTRACTS = ("stroke_order",)
 CONTRACTS = ("stroke_order",)
 REACH = {"Table.set_cell_border": "Table.set_cell_border", "_NumbersModel.add_stroke": "add_stroke", "_NumbersModel.extract_strokes": "extract_strokes",
          "_NumbersModel.set_cell_border": "model.set_cell_border", "Style.from_storage": "Style.from_storage", "_NumbersModel.update_cell_styles": "update_cell_styles",
